@@ -85,6 +85,9 @@ def generate(rng, tier):
             ops.append({"op": "by_label", "label": rng.choice(list(order) + ["A", "Z"])})
         else:
             ops.append({"op": "set_order", "order": rng.choice(ORDERS + ["ABACADAEAFAGAH"])})
+    for op in ops:
+        # reading the aggregate properties is itself scheduled: reading fills any cache, not reading lets it go stale
+        op["observe"] = rng.random() < 0.6
     return {"seams": {"clock_origin": 1.7e9, "clock_jitter_seed": rng.randrange(1 << 20),
                       "entropy_salt": rng.randrange(1 << 20), "scratch": "c18"},
             "ordered": ordered, "order": order, "pool": pool, "init": init, "ops": ops,
@@ -510,7 +513,7 @@ def execute(sc, ctx):
         if not seq_ok(kind, ic):
             return
         # aggregates agree with the members
-        if ref:
+        if ref and op.get("observe", True):
             want_t = sum(f.tchans for f in ref)
             want_r = ref[-1].t_stop - ref[0].t_start
             want_s = [ref[k].t_start - ref[k - 1].t_stop for k in range(1, len(ref))]
